@@ -90,7 +90,8 @@ class Shape:
     def _cast_plain_enum(obj):
         signed = False
         width  = 0
-        for member in obj:
+        # Iterating a `Flag` class skips members that are not a single bit (and aliases).
+        for member in obj.__members__.values():
             try:
                 member_shape = Const.cast(member.value).shape()
             except TypeError as e:
